@@ -75,6 +75,11 @@ def configs(tier):
                             out.append(dict(base, load="all:zero"))
     out.append(dict(ndim=3, ncpu=2, shape="refined-other", nboundary=0, nxyz=[1, 1, 1], levelmax=2, hydro="hd", grav=False, rt=False,
                     units=list(UNITSETS[0]), nout=-1, load="all:zero"))
+    # the remaining variable names of the unit library (momentum, internal_energy, temperature, energy, two-digit groups, unknown names)
+    for ndim in (1, 2, 3):
+        for us in UNITSETS:
+            out.append(dict(ndim=ndim, ncpu=1, shape="refined", nboundary=0, nxyz=[1, 1, 1], levelmax=2, hydro="alt", grav=False, rt=False,
+                            units=list(us), nout=1, load="all:zero"))
     return out
 
 
